@@ -135,3 +135,44 @@ Theorem C01_needs_a_granular_root :
 Proof. exact apply_takes_effect_needs_root. Qed.
 Print Assumptions C01_needs_a_granular_root.
 
+(* ---- along every history: the side conditions are an invariant of the reachable states
+   (Proofs/History.v: [state_ok], [op_ok], [run]; one version, identity converter, no ignore
+   configuration; histories of apply / forced apply / update by any number of managers) ---- *)
+From SMD Require Import Spec.RefDiff Proofs.RefDiffBoth Proofs.RefDiffLaws Proofs.RefDiffPresent Proofs.ApplyInv
+  Proofs.RefDiffChar Proofs.ReconcileCurrent Proofs.KeySync Proofs.History.
+Theorem C01_along_every_history :
+  forall (c : config) (R : typeref -> Prop) (ver : string) (ops : list hop) 
+           (mgr : string) (cfg : value) (force : bool) (o : option tv) 
+           (mf' : managed),
+         setting_ok c R ver ->
+         Forall (op_ok c ver) ops ->
+         op_ok c ver (HApply mgr cfg force) ->
+         apply_op c (ver, fst (run c ver ops)) (ver, cfg) ver (snd (run c ver ops)) mgr force =
+         UOk (o, mf') ->
+         agrees (schema_of c ver) (tr_of c ver) cfg
+           match o with
+           | Some t => snd t
+           | None => fst (run c ver ops)
+           end = true.
+Proof. exact apply_takes_effect_along_histories. Qed.
+Print Assumptions C01_along_every_history.
+
+Theorem C01_history_example :
+  setting_ok ex_config FieldSetLaws.ex_R "v1" /\
+         Forall (op_ok ex_config "v1") hx_ops /\
+         run ex_config "v1" hx_ops = (hx_obj, hx_mf) /\ state_ok ex_config "v1" hx_obj hx_mf.
+Proof. exact history_example. Qed.
+Print Assumptions C01_history_example.
+
+Theorem C01_history_example_apply :
+  (exists (o : option tv) (mf' : managed),
+            apply_op ex_config ("v1", hx_obj) ("v1", hx_cfg) "v1" hx_mf "b" true = UOk (o, mf')) /\
+         (forall (o : option tv) (mf' : managed),
+          apply_op ex_config ("v1", hx_obj) ("v1", hx_cfg) "v1" hx_mf "b" true = UOk (o, mf') ->
+          agrees ex_schema ex_rt hx_cfg match o with
+                                        | Some t => snd t
+                                        | None => hx_obj
+                                        end = true).
+Proof. exact history_example_apply. Qed.
+Print Assumptions C01_history_example_apply.
+
